@@ -22,6 +22,7 @@ import (
 	"github.com/DataDog/datadog-traceroute/cache"
 	"github.com/DataDog/datadog-traceroute/icmp"
 	"github.com/DataDog/datadog-traceroute/packets"
+	"github.com/DataDog/datadog-traceroute/tcp"
 )
 
 // Free-running mode (C14 only): the bubble provides the fake clock, but there is NO scheduler
@@ -340,6 +341,7 @@ func ExecuteFree(t *testing.T, sc *Scenario, outp **Outcome) {
 		w.dns = &dnsState{count: map[string]int{}}
 		w.httpSt = &httpState{count: map[string]int{}}
 		cache.Cache = gocache.New(5*time.Minute, 0)
+		tcp.VerifSetSeqSource(nil)
 		if sc.Knobs.SetEchoIDBase {
 			icmp.VerifSetEchoIDBase(sc.Knobs.EchoIDBase)
 		}
